@@ -242,7 +242,7 @@ def harnesses(ctx):
         # global bound maxk+3 closes every loop of the node operations (they run at most maxKeys+1 times); the loops over the universe
         # (harness, predicates, DFCC's assigns-clause inclusion check) get their own bounds; unwinding assertions on all of them
         common = dict(cpp=cpp, c=c, defines=D, unwind=maxk + 3, flags=F, bounded=B, object_bits=8)
-        hs.append(Harness('btnode.layout', 'harness_layout', unwind=None, cpp=cpp, c=c, defines=D, must_have=['layout'], clause='C mirror structs have the layout of the extracted node types; node::maxKeys evaluates to VX_MAXK'))
+        hs.append(Harness('btnode.layout', 'harness_layout', unwind=None, cpp=cpp, c=c, defines=D, must_have=['layout'], bounded=B, clause='C mirror structs have the layout of the extracted node types; node::maxKeys evaluates to VX_MAXK'))
         hs.append(Harness('btnode.split', 'harness_split', enforce='h_split', replace=['h_grow'], must_have=['postcondition'], timeout=1500,
                           clause='node::split: T = T\' ++ [sep] ++ S pointwise (keys, children, back links); S is fresh, write-locked, recorded, placed right behind T in the parent with sep between them',
                           funcs=['souffle::detail::btree::node::split', '...::getSplitPoint'], **common))
